@@ -2,7 +2,8 @@
 
 nnxworld: a heap of graphs grown by edit ops (attributes set to static values, arrays, Variables with
 metadata, references to ANY existing object -> sharing, diamonds, self references and cycles arise on
-their own; fresh list/dict/tuple containers), mirrored by a pure-Python model; API ops split / merge /
+their own; fresh list/dict/tuple containers and generic pytree containers - namedtuple, OrderedDict, flax.struct
+dataclass - with their fields declared in every order), mirrored by a pure-Python model; API ops split / merge /
 state / graphdef / update / pop / clone / iter_graph are checked against the mirror, and after every
 op the canonical form and object identities of every root are compared with the mirror's.
 """
@@ -21,7 +22,8 @@ TIERS = {
 SELFTEST_RUNS = 300
 RULE = (
   'each run = one history: 4..20 graph-edit ops on a heap of <= 12 nodes (new node, static / array / Variable-with-metadata '
-  'attribute, reference to any existing node or Variable, fresh list/dict/tuple container, delete) interleaved with API ops '
+  'attribute, reference to any existing node or Variable, fresh list/dict/tuple container, fresh namedtuple / OrderedDict / '
+  'flax.struct container with 2-4 fields in a generated declaration order, delete) interleaved with API ops '
   '(split with 0-3 generated filters then merge in shuffled state order, state, graphdef equality/hash vs an isomorphic clone, '
   'update with perturbed / foreign-isomorphic / partial states, pop, clone, iter_graph) and gc events; after every op every '
   'root is compared with the pure-Python mirror (canonical form incl. identity classes, and object identity). Non-trivial = '
@@ -32,9 +34,10 @@ COMPONENTS = {'real': ['flax/nnx/graph.py (flatten/unflatten/split/merge/state/u
 ASSUMPTIONS = [
   'plain list/dict/tuple containers are value-like pytrees in NNX (no identity): the generator never aliases one container under two parents',
   'pop is only generated when no selected Variable is shared between paths or sits directly inside a list/dict/tuple (behaviour the property does not pin down)',
+  'a raw array directly inside a list/tuple/dict/namedtuple/OrderedDict/struct container is an immutable leaf for flax (update raises ValueError by design): no update is generated on a graph that has one',
   'there is no scheduler or I/O behind this property; the simulator contributes long aliasing/edit histories against a model, gc instants and identity checks',
 ]
-PROBES = ['shared_variable', 'shared_or_cyclic_node', 'self_reference', 'pytree_container', 'long_list_container', 'cycle_in_graph', 'split_nonexhaustive_raises', 'merge_shuffled', 'update_foreign', 'pop_done', 'graphdef_differs_after_edit', 'gc_event', 'metadata_edited_in_place', 'snapshot_restored', 'container_root', 'state_routes_checked', 'failed_call_then_continue']
+PROBES = ['shared_variable', 'shared_or_cyclic_node', 'self_reference', 'pytree_container', 'long_list_container', 'generic_pytree_container', 'generic_rotated_field_order', 'cycle_in_graph', 'split_nonexhaustive_raises', 'merge_shuffled', 'update_foreign', 'pop_done', 'graphdef_differs_after_edit', 'gc_event', 'metadata_edited_in_place', 'snapshot_restored', 'container_root', 'state_routes_checked', 'failed_call_then_continue']
 
 
 def setup_worker(w, tier):
@@ -45,7 +48,7 @@ def setup_worker(w, tier):
 
 def generate(rs, tier):
   g = stream(rs, 'gen')
-  ops = W.gen_build_ops(g, g.randrange(3, 12), W.STATICS_TYPED)
+  ops = W.gen_build_ops(g, g.randrange(3, 12), W.STATICS_TYPED, generic=True)
   n_api = g.randrange(2, 10)
   for _ in range(n_api):
     r = g.random()
@@ -85,7 +88,7 @@ def generate(rs, tier):
       ops.insert(pos + 1, dict(op='setmeta', var=g.randrange(64), key=g.choice(['tag', 'note']), value=g.choice(['x', 'y', 'frozen'])))
       ops.insert(pos + 2, dict(op='update', root=root, how='restore_kept', filt={'e': True}, delta=1))
     if g.random() < 0.3:
-      ops[-1:-1] = W.gen_build_ops(g, 2, W.STATICS_TYPED)[1:]
+      ops[-1:-1] = W.gen_build_ops(g, 2, W.STATICS_TYPED, generic=True)[1:]
   if g.random() < 0.25:
     # some Variables carry a user get-hook: `.value` shows a transformed view, the stored value is what split, state,
     # update, clone and pop move around
@@ -267,7 +270,9 @@ def execute(plan):
                 raise Violation('state-partition-wrong', f'{where}: {name} changed the states it was given (the caller goes on using them)')
             if len(direct) > 1:
               # the partition is used once (update with all parts), then again
-              nnx.update(r, *direct)
+              # (no update when a raw array sits inside an immutable container: ValueError by design)
+              if not W.model_array_in_container(m):
+                nnx.update(r, *direct)
               if [flat(a) for a in direct] != parts_before:
                 raise Violation('state-partition-wrong', f'{where}: nnx.update(node, *states) changed the states it was given')
               again_m = nnx.merge(nnx.graphdef(r), *direct)
@@ -316,6 +321,8 @@ def execute(plan):
           now = [(p, l.id if isinstance(l, W.MVar) else None) for p, l in W.model_leaves(m)]
           if now != [(p, i) for p, i, _, _ in c['leaves']]:
             continue  # the structure changed since: a different (unpinned) question
+          if W.model_array_in_container(m):
+            continue  # a raw array inside an immutable container cannot be written back (ValueError by design)
           nnx.update(r, c['state'])
           for (p, l), (_, _, rec, meta) in zip(W.model_leaves(m), c['leaves']):
             if isinstance(l, W.MVar):
@@ -329,6 +336,8 @@ def execute(plan):
           res.probe('snapshot_restored')
           log.add(oi, k, 'restore_kept')
         elif k == 'update':
+          if W.model_array_in_container(m):
+            continue  # a raw array inside an immutable container cannot be written back (ValueError by design)
           how = op['how']
           d = float(op['delta'])
           leaves = W.model_leaves(m)
